@@ -41,9 +41,9 @@ type Outcome struct {
 	Nontrivial bool             `json:"nontrivial"`
 	SimSeconds float64          `json:"sim_seconds,omitempty"`
 	Sample     interface{}      `json:"sample,omitempty"`
-	Harness    string           `json:"harness,omitempty"` // non-empty: harness trouble (exit 2), never a violation
+	Harness    string           `json:"harness,omitempty"`  // non-empty: harness trouble (exit 2), never a violation
 	Poisoned   bool             `json:"poisoned,omitempty"` // the worker process must not be reused (leaked goroutines)
-	Log        []string         `json:"log,omitempty"`     // event log (replay / selftest only)
+	Log        []string         `json:"log,omitempty"`      // event log (replay / selftest only)
 }
 
 func (o *Outcome) Stat(name string, d int64) {
@@ -76,15 +76,19 @@ type Check struct {
 	// InProcess=false: a worker process dying while executing a case is an
 	// observation (product goroutine panicked / log.Fatal); DeathSig maps the
 	// captured stderr to a signature.
-	DeathSig func(stderr string, cs json.RawMessage) (sig, msg string)
-	MemLimit uint64 // address-space limit of a worker process (0: 6 GiB)
-	WallPerSeed time.Duration // watchdog per seed including shrinking (0: 10 min)
-	RecycleEvery int          // restart a worker process after this many seeds (0: never)
+	DeathSig     func(stderr string, cs json.RawMessage) (sig, msg string)
+	MemLimit     uint64        // address-space limit of a worker process (0: 6 GiB)
+	WallPerSeed  time.Duration // watchdog per seed including shrinking (0: 10 min)
+	RecycleEvery int           // restart a worker process after this many seeds (0: never)
+	// Focus, when set, proposes a much smaller case for a violation found inside
+	// an enumeration (e.g. only the failing crash point); it is kept if it
+	// reproduces the same signature, before ordinary shrinking starts.
+	Focus func(c json.RawMessage, v Violation) json.RawMessage
 	// RaceSeeds, when set, adds a second leg executed by a binary built with
 	// -race (VERIF_RACE_BIN): a data race report kills the worker (halt_on_error)
 	// and is classified by DeathSig.
 	RaceSeeds func(tier string) int
-	Workers  int // 0: default
+	Workers   int // 0: default
 }
 
 var registry = map[string]*Check{}
@@ -300,7 +304,19 @@ func runSeed(c *Check, tier string, root, seed uint64) workerResult {
 			continue
 		}
 		seen[key] = true
-		min, mv, execs := shrink(c, cs, v, 400, time.Now().Add(20*time.Second))
+		start := cs
+		if c.Focus != nil {
+			if fc := c.Focus(cs, v); fc != nil {
+				fo := safeExec(c, fc, false)
+				for _, fv := range fo.Violations {
+					if fv.Property == v.Property && fv.Sig == v.Sig {
+						start, v = fc, fv
+						break
+					}
+				}
+			}
+		}
+		min, mv, execs := shrink(c, start, v, 400, time.Now().Add(20*time.Second))
 		res.Shrinks += execs
 		lo := safeExec(c, min, true)
 		rf := ReplayFile{Property: mv.Property, Sig: mv.Sig, Msg: mv.Msg, Seed: seed, RootSeed: root, Tier: tier,
@@ -380,10 +396,11 @@ type evidence struct {
 }
 
 type workerProc struct {
-	cmd    *exec.Cmd
-	stdin  io.WriteCloser
-	stdout *bufio.Reader
-	stderr *tailBuffer
+	watchdog string // set when the parent killed the worker
+	cmd      *exec.Cmd
+	stdin    io.WriteCloser
+	stdout   *bufio.Reader
+	stderr   *tailBuffer
 }
 
 type tailBuffer struct {
@@ -456,14 +473,14 @@ func (w *workerProc) readResultWatched(c *Check, seed uint64) (*workerResult, er
 		case x := <-ch:
 			return x.r, x.err
 		case <-tick.C:
-			if rss := rssOf(w.cmd.Process.Pid); rss > 8<<30 {
-				fmt.Fprintf(w.stderr, "WATCHDOG: seed %d: worker resident memory %d MiB\n", seed, rss>>20)
+			if rss := rssOf(w.cmd.Process.Pid); rss > 12<<30 {
+				w.watchdog = fmt.Sprintf("WATCHDOG: seed %d: worker resident memory %d MiB", seed, rss>>20)
 				w.cmd.Process.Signal(syscall.SIGQUIT)
 				x := <-ch
 				return nil, fmt.Errorf("watchdog: %v", x.err)
 			}
 		case <-deadline:
-			fmt.Fprintf(w.stderr, "WATCHDOG: seed %d exceeded its wall-clock budget of %s\n", seed, limit)
+			w.watchdog = fmt.Sprintf("WATCHDOG: seed %d exceeded its wall-clock budget of %s", seed, limit)
 			w.cmd.Process.Signal(syscall.SIGQUIT)
 			x := <-ch
 			return nil, fmt.Errorf("watchdog: %v", x.err)
@@ -584,7 +601,7 @@ func runParent(c *Check, tier string, root uint64) int {
 						// worker died while executing this seed
 						w.cmd.Wait()
 						mu.Lock()
-						deaths = append(deaths, death{seed, w.stderr.String(), leg})
+						deaths = append(deaths, death{seed, w.watchdog + "\n" + w.stderr.String(), leg})
 						mu.Unlock()
 						w = nil
 						continue
@@ -689,7 +706,8 @@ func runParent(c *Check, tier string, root uint64) int {
 			return 2
 		}
 		if strings.Contains(d.stderr, "WATCHDOG:") {
-			fmt.Fprintf(os.Stderr, "HARNESS-TROUBLE check=%s %s\n", c.ID, tail(d.stderr, 6000))
+			fmt.Fprintf(os.Stderr, "HARNESS-TROUBLE check=%s %s\n", c.ID, strings.SplitN(d.stderr, "\n", 2)[0])
+			fmt.Fprintf(os.Stderr, "%s\n", tail(d.stderr, 3000))
 			return 2
 		}
 		dcs := c.Gen(simrt.NewRand(d.seed), tier)
@@ -787,25 +805,25 @@ func runParent(c *Check, tier string, root uint64) int {
 		samples = []interface{}{}
 	}
 	cov := map[string]interface{}{
-		"evaluations":              len(results) + len(deaths),
-		"distinct_nontrivial":      len(hashes),
-		"nontrivial_runs":          nontrivial,
-		"rule":                     c.Rule,
-		"samples":                  samples,
-		"seeds_planned":            seeds,
-		"seeds_per_hour":           int(float64(len(results)) / wall * 3600),
-		"simulated_seconds":        simSeconds,
-		"counters_and_faults":      stats,
-		"probes_at_zero":           zero,
-		"shrink_executions":        shrinkExecs,
-		"components_real":          c.Real,
-		"components_stub":          c.Stub,
-		"workers":                  nw,
-		"known_findings_hit":       knownOut,
-		"violations_confirmed":     confirmed,
-		"violations_unconfirmed":   unconfirmed,
-		"stopped_by_wall_clock":    next < seeds,
-		"distinct_measure":         "distinct hashes of the canonical per-run event sequence among runs that are non-trivial by the rule",
+		"evaluations":            len(results) + len(deaths),
+		"distinct_nontrivial":    len(hashes),
+		"nontrivial_runs":        nontrivial,
+		"rule":                   c.Rule,
+		"samples":                samples,
+		"seeds_planned":          seeds,
+		"seeds_per_hour":         int(float64(len(results)) / wall * 3600),
+		"simulated_seconds":      simSeconds,
+		"counters_and_faults":    stats,
+		"probes_at_zero":         zero,
+		"shrink_executions":      shrinkExecs,
+		"components_real":        c.Real,
+		"components_stub":        c.Stub,
+		"workers":                nw,
+		"known_findings_hit":     knownOut,
+		"violations_confirmed":   confirmed,
+		"violations_unconfirmed": unconfirmed,
+		"stopped_by_wall_clock":  next < seeds,
+		"distinct_measure":       "distinct hashes of the canonical per-run event sequence among runs that are non-trivial by the rule",
 	}
 	ev := evidence{PropertyID: c.ID, Tier: tier, Seed: int64(root & 0x7fffffffffffffff), Level: c.Level, Coverage: cov,
 		Assumptions: c.Assumptions, WallS: wall, Violations: len(lines)}
